@@ -366,65 +366,6 @@ def _worker_shard(args):
             'digest': dig.hexdigest(), 't': time.time() - t0}
 
 
-_HIDDEN = None
-_HIDDEN0 = None
-LIB_MODULES = ('bitcoin', 'bitcoin.core', 'bitcoin.core.serialize', 'bitcoin.core.script', 'bitcoin.core.scripteval', 'bitcoin.core.key',
-               'bitcoin.core._bignum', 'bitcoin.base58', 'bitcoin.bech32', 'bitcoin.segwit_addr', 'bitcoin.wallet', 'bitcoin.signmessage',
-               'bitcoin.signature', 'bitcoin.messages', 'bitcoin.net', 'bitcoin.rpc', 'bitcoin.bloom')
-
-
-def hidden_state_fingerprint():
-    """Coarse sizes (empty / one entry / more) of every module-level and class-level mutable container (dict / list / set /
-    bytearray / BytesIO / functools cache) of the library's modules, relative to their size at start.  BFS keys are
-    extended by it, so two histories are merged only if they also left the library's own process-wide state in the same
-    class: on the library as it is the value never changes (there is no such state), with a cache or scratch buffer
-    added it keeps apart "nothing cached yet / leftovers present" from "clean" - what the property-level key cannot
-    see.  The projection is deliberately coarse (three classes per container): a *correct* cache that grows with every
-    call must not blow the state space up."""
-    global _HIDDEN
-    import io
-    if _HIDDEN is None:
-        import importlib
-        for mname in LIB_MODULES:
-            importlib.import_module(mname)
-        found = []
-        for name, mod in sorted(sys.modules.items()):
-            if not (name == 'bitcoin' or name.startswith('bitcoin.')) or '.tests' in name or mod is None:
-                continue
-            owners = [(name, mod)]
-            for k, v in sorted(vars(mod).items()):
-                if isinstance(v, type) and getattr(v, '__module__', None) == name:
-                    owners.append((name + '.' + k, v))
-            for oname, o in owners:
-                for k, v in sorted(vars(o).items()):
-                    if k.startswith('__') and k.endswith('__'):
-                        continue
-                    if isinstance(v, (dict, list, set, bytearray, io.BytesIO, collections.deque)) or hasattr(v, 'cache_info'):
-                        found.append((oname + '.' + k, o, k))
-        _HIDDEN = found
-    out = []
-    for label, o, k in _HIDDEN:
-        try:
-            v = vars(o)[k]
-        except KeyError:
-            out.append(None)
-            continue
-        if isinstance(v, io.BytesIO):
-            n = len(v.getvalue())
-        elif hasattr(v, 'cache_info'):
-            n = v.cache_info().currsize
-        else:
-            try:
-                n = len(v)
-            except TypeError:
-                n = None
-        out.append(n)
-    global _HIDDEN0
-    if _HIDDEN0 is None:
-        _HIDDEN0 = tuple(out)
-    return tuple(None if (n is None or b is None) else min(max(n - b, -1), 2) for n, b in zip(out, _HIDDEN0))
-
-
 def _worker_bfs(args):
     fam_idx, hists = args
     fam = _FAMS[fam_idx]
@@ -453,7 +394,7 @@ def _worker_bfs(args):
                 continue
             outcomes[outcome] += 1
             # canonical keys can be large (whole models / stacks): the parent deduplicates on a 128-bit digest of them
-            out.append((hashlib.blake2b(repr((key, hidden_state_fingerprint())).encode(), digest_size=16).digest(), expandable, h2))
+            out.append((hashlib.blake2b(repr(key).encode(), digest_size=16).digest(), expandable, h2))
     return {'fam': fam_idx, 'out': out, 'viols': viols[:40], 'nviol': len(viols), 'outcomes': dict(outcomes),
             'ntrans': ntrans}
 
@@ -490,7 +431,6 @@ class Run:
             f.tier = self.tier              # visible in the forked workers
         _FAMS = dict(enumerate(fams))
         _SHM = mmap.mmap(-1, 1024 * 4096)
-        hidden_state_fingerprint()          # the list of containers is fixed here, before any worker is forked
         self.fresh_ex = None
         if any(getattr(f, 'fresh', False) for f in fams):
             self.fresh_ex = ProcessPoolExecutor(max_workers=NPROC, mp_context=_MP)
